@@ -4,6 +4,7 @@ package main
 
 import (
 	"fmt"
+	"sort"
 	"go/constant"
 	"go/token"
 	"go/types"
@@ -102,7 +103,11 @@ func (e *Env) goTypeOf(s string) types.Type {
 		if i := strings.Index(s, "."); i > 0 {
 			prefix := strings.TrimLeft(s[:i], "*[]")
 			lead := s[:strings.Index(s, prefix)]
-			for _, imp := range p.Imports() {
+			imps := append([]*types.Package{}, p.Imports()...)
+			sort.SliceStable(imps, func(a, b int) bool {
+				return strings.HasPrefix(imps[a].Path(), modPath) && !strings.HasPrefix(imps[b].Path(), modPath)
+			})
+			for _, imp := range imps {
 				if imp.Name() == prefix {
 					if obj := imp.Scope().Lookup(s[i+1:]); obj != nil {
 						t := obj.Type()
@@ -461,7 +466,9 @@ func (e *Env) index(t EIndex) Val {
 	case *types.Map:
 		ks, vs := vc.sortOf(u.Key()), vc.sortOf(u.Elem())
 		c := vc.comp(e.st, mapValComp(u), fmt.Sprintf("(Array Int (Array %s %s))", ks, vs))
-		return Val{T: fmt.Sprintf("(select (select %s %s) %s)", c, xv.T, iv.T), Typ: u.Elem()}
+		d := vc.comp(e.st, mapDomComp(u), fmt.Sprintf("(Array Int (Array %s Bool))", ks))
+		// Go semantics: the zero value for an absent key (and for a nil map)
+		return Val{T: fmt.Sprintf("(ite (and (not (= %s 0)) (select (select %s %s) %s)) (select (select %s %s) %s) %s)", xv.T, d, xv.T, iv.T, c, xv.T, iv.T, vc.zero(u.Elem())), Typ: u.Elem()}
 	case *types.Array:
 		return Val{T: fmt.Sprintf("(select %s %s)", xv.T, iv.T), Typ: u.Elem()}
 	}
@@ -797,6 +804,30 @@ func (e *Env) callSpec(t ECall) Val {
 	case "fresh": // reference allocated during the call
 		v := e.eval(t.Args[0])
 		return mathBool(fmt.Sprintf("(>= %s %s)", refTerm(v), e.old.alloc))
+	case "eqlit": // eqlit(bytes, "literal"): the byte slice (or string) has exactly that content
+		v := e.eval(t.Args[0])
+		lit, ok := t.Args[1].(EStr)
+		if !ok {
+			unsup("spec: eqlit needs a string literal")
+		}
+		var facts []string
+		if v.sort(vc) == "Str" {
+			facts = append(facts, fmt.Sprintf("(= (slen %s) %d)", v.T, len(lit.V)))
+			for i := 0; i < len(lit.V); i++ {
+				facts = append(facts, fmt.Sprintf("(= (sat %s %d) %d)", v.T, i, lit.V[i]))
+			}
+			return mathBool(and(facts...))
+		}
+		sl, isSlice := types.Unalias(v.Typ).Underlying().(*types.Slice)
+		if !isSlice {
+			unsup("spec: eqlit on %s", v.Typ)
+		}
+		c := vc.comp(e.st, elemComp(sl.Elem()), vc.elemCompSort(sl.Elem()), sl.Elem())
+		facts = append(facts, fmt.Sprintf("(= (len %s) %d)", v.T, len(lit.V)))
+		for i := 0; i < len(lit.V); i++ {
+			facts = append(facts, fmt.Sprintf("(= (select (select %s (arr %s)) (+ (off %s) %d)) %d)", c, v.T, v.T, i, lit.V[i]))
+		}
+		return mathBool(and(facts...))
 	case "store": // store(array, index, value) on SMT arrays
 		a, i, v := e.eval(t.Args[0]), e.eval(t.Args[1]), e.eval(t.Args[2])
 		return Val{T: fmt.Sprintf("(store %s %s %s)", a.T, i.T, v.T), Sort: a.sort(vc)}
@@ -816,6 +847,8 @@ func (e *Env) callSpec(t ECall) Val {
 		}
 		rt := sig.Results().At(idx).Type()
 		return Val{T: vc.pureApply(sig, idx, fv.T, args), Typ: rt}
+	case "pure": // pure("pkg::key", args...): result of a contracted function, axiomatised by its contract
+		return e.pureCall(t)
 	case "str": // str(byteslice): the string with that content
 		v := e.eval(t.Args[0])
 		if e.frame == nil {
@@ -946,4 +979,84 @@ func (e *Env) modTarget(x Expr, out map[string][]string) {
 	}
 	_ = vc
 	unsup("modifies: cannot interpret %s", x)
+}
+
+// pureCall: the value returned by a function under contract, characterised only by that contract
+// (its requires become obligations of the lemma, its ensures assumptions). The heap is not changed.
+func (e *Env) pureCall(t ECall) Val {
+	vc := e.vc
+	if len(t.Args) < 1 {
+		unsup("pure needs a function key")
+	}
+	key, ok := t.Args[0].(EStr)
+	if !ok {
+		unsup("pure: first argument must be a string literal naming the function")
+	}
+	var fn *ssa.Function
+	if i := strings.Index(key.V, "::"); i >= 0 {
+		for path := range vc.prog.pkgs {
+			if qualifierPath(path) == key.V[:i] {
+				fn = vc.prog.byKey[path+"::"+key.V[i+2:]]
+			}
+		}
+	} else {
+		fn = vc.prog.lookupFuncIn(e.pkgTypes(), key.V)
+	}
+	if fn == nil {
+		unsup("pure: unknown function %q", key.V)
+	}
+	con := vc.prog.contractFor(fn)
+	if con == nil {
+		unsup("pure: %s has no contract", key.V)
+	}
+	if len(con.Modifies) > 0 {
+		unsup("pure: %s has a modifies clause", key.V)
+	}
+	if len(t.Args)-1 != len(fn.Params) {
+		unsup("pure: %s takes %d arguments", key.V, len(fn.Params))
+	}
+	vars := map[string]Val{}
+	for i, p := range fn.Params {
+		v := e.eval(t.Args[i+1])
+		v.Typ = p.Type()
+		vars[p.Name()] = v
+	}
+	cenv := &Env{vc: vc, pkg: fn.Pkg, st: e.st, old: e.st, vars: vars, fn: fn}
+	for i, r := range con.Requires {
+		vc.oblige("pre", fmt.Sprintf("%s#pre:%s.%d", vc.fnName, shortFn(fn), i+1), "true", cenv.evalBool(r.E), vc.prog.fset.Position(fn.Pos()), "precondition of "+shortFn(fn)+" in a lemma: "+r.Src)
+	}
+	for _, p := range con.Panics {
+		vc.oblige("pre", fmt.Sprintf("%s#nopanic:%s", vc.fnName, shortFn(fn)), "true", not(cenv.evalBool(p.When.E)), vc.prog.fset.Position(fn.Pos()), shortFn(fn)+" does not panic on the lemma's arguments: "+p.When.Src)
+	}
+	res := fn.Signature.Results()
+	var rvals []Val
+	for i := 0; i < res.Len(); i++ {
+		rt := res.At(i).Type()
+		n := vc.freshConst("pure "+fn.Name(), vc.sortOf(rt))
+		vc.assert(vc.typed(n, rt, 2))
+		rv := Val{T: n, Typ: rt}
+		rvals = append(rvals, rv)
+		if nm := res.At(i).Name(); nm != "" && nm != "_" {
+			vars[nm] = rv
+		}
+		vars[fmt.Sprintf("result%d", i)] = rv
+		if res.Len() == 1 {
+			vars["result"] = rv
+		}
+	}
+	for _, en := range con.Ensures {
+		vc.assert(cenv.evalBool(en.E))
+	}
+	vc.assumed["contract of "+shortFn(fn)+" (used as its axiomatisation in a lemma; verified separately)"] = true
+	if len(rvals) == 1 {
+		return rvals[0]
+	}
+	return Val{Tuple: rvals, Typ: res}
+}
+
+func qualifierPath(path string) string {
+	if path == modPath {
+		return "schema"
+	}
+	return strings.TrimPrefix(path, modPrefix)
 }
